@@ -21,7 +21,7 @@ func init() {
 			"(3) the trim bound applied after a batch originates from the log entry (LogData.LowestActiveIndex); on the leader a transaction's own start index is excluded from the shipped bound only if it is the only active one at that index; " +
 			"(4) the fast-path predicate requires: in a transaction, first command of the batch, and applied index == start index; the bypass predicates consult the tracker for exactly the (start, command] window; " +
 			"(5) verification precedes every write of a transaction and a verification failure writes nothing; " +
-			"gaps round 2: (3+) the per-start-index count of open write transactions behind the shipped bound is incremented on registration, decremented on completion and the index forgotten only with its last transaction, and trimming removes exactly the entries below the bound; " +
+			"gaps round 2: (3+) the per-start-index count of open write transactions behind the shipped bound is incremented on registration, decremented on completion and the index forgotten only with its last transaction, and trimming removes exactly the entries below the bound; node-local trim bounds and the bound applyLog ships are min(·, state machine index), and the entry is serialised / handed to raft only after applyLog stored that capped bound, whatever the caller pre-computed (shared with C08.7); " +
 			"(6) every data-bucket write on the apply path is followed by logWrite of the same key before the next write or a successful return, the helpers in between hand on the written key / the transaction's own write set (plain writes recorded directly, transactional ones collected), verification asks the record about and reads back exactly the key / listed prefix of the operation, and the record tests a written key against the listed prefix itself (raw prefix match, as listing does), not a string derived from it; (7) every bolt write of package raft is in a reviewed table and the unlogged writers FSM.Put/Delete have no caller (DeletePrefix: chunk bookkeeping only); " +
 			"(8) the persisted and in-memory cursor of a batch are index/term of its last entry, the synthetic snapshot shown to raft and the cursor written into a snapshot's database carry the state machine's / snapshot's index and term unchanged, witnessSnapshot moves the in-memory cursor only after the persisted one was written and moves either only across a comparison establishing that the snapshot's index is not behind the current cursor (the persisted one compared inside the bolt update that writes it); " +
 			"(9) applyLog reports success for a transaction entry only if the response carries no conflict sentinel, and the sentinel's error is what it returns; (4+) the per-command state is built from its own arguments and starts outside a transaction; " +
